@@ -345,6 +345,8 @@ def mech_for(kind, iface, cfgname, spec, flags, exc=None, probe=None):
                         return "adjoint:multiparam-op-shifts-param-index"
             if probe is not None and probe():
                 return "adjoint:multiparam-op-shifts-param-index"
+            if probe is not None and probe("mcx"):
+                return "adjoint:op-data-vs-num_params-mismatch:MultiControlledX"
             obs_params = any(m["kind"] != "probs" and m["obs"][0] in ("herm", "sum", "proj") for m in spec["meas"])
             if nonstandard_wires(spec) and (nontr or obs_params):
                 return "adjoint:map_to_standard_wires-resets-trainable"
@@ -449,7 +451,7 @@ def run(ctx):
     G = qp.gradients
     ncirc = ctx.n(150, 4800)
     base = ctx.shard * 100000
-    min_circ = 4 if ctx.quick else 20   # progress guarantee when imports ate the soft budget (loaded machine)
+    min_circ = 4 if ctx.quick else 8   # progress guarantee when imports ate the soft budget (loaded machine)
     for ci in range(ncirc):
         if ci >= min_circ and not ctx.more():
             break
@@ -494,6 +496,11 @@ def run(ctx):
                 cfg = qp.devices.ExecutionConfig(gradient_method="adjoint", use_device_gradient=True)
                 (t2,), _ = dev.preprocess_transforms(cfg)((tape,))
                 return any(op.num_params > 1 for op in t2.operations)
+            if what == "mcx":
+                tape = C.make_tape(qp, spec, th, trainable=tr)
+                cfg = qp.devices.ExecutionConfig(gradient_method="adjoint", use_device_gradient=True)
+                (t2,), _ = dev.preprocess_transforms(cfg)((tape,))
+                return any(len(op.data) != op.num_params for op in t2.operations)
             if what == "nocache":
                 qn = qp.QNode(qf, dev, interface="autograd", diff_method="parameter-shift", max_diff=2, cache=False)
                 J = jac_autograd(qp, qn, x, mode, subset, nmeas)
